@@ -6,7 +6,7 @@ META = dict(
     functions=['initDVector', 'NewDVector', 'DelDVector', 'DVectorResize', 'DVectorAppend', 'DVectorRemoveAt', 'DVectorCopy', 'DVectorExtend', 'setDVectorValue', 'getDVectorValue', 'initUIVector', 'NewUIVector', 'UIVectorResize', 'UIVectorAppend', 'UIVectorRemoveAt', 'UIVectorExtend', 'setUIVectorValue', 'getUIVectorValue', 'SortUIVector', 'intcmp', 'initIVector', 'NewIVector', 'IVectorAppend', 'IVectorRemoveAt', 'IVectorExtend', 'setIVectorValue', 'getIVectorValue', 'initTensor', 'AddTensorMatrix', 'TensorAppendMatrix', 'TensorAppendColumn', 'TensorAppendRow', 'setTensorValue', 'getTensorValue', 'TensorCopy', 'TensorSet', 'DelTensor', 'initDVectorList', 'DVectorListAppend', 'DelDVectorList', 'initMatrix', 'NewMatrix', 'ResizeMatrix', 'DelMatrix', 'MatrixCopy', 'MatrixSet', 'setMatrixValue', 'getMatrixValue', 'getMatrixRow', 'getMatrixColumn',
                'MatrixAppendRow', 'MatrixAppendCol', 'MatrixAppendUIRow', 'MatrixAppendUICol', 'MatrixDeleteRowAt', 'MatrixDeleteColAt'],
     bounds='operation histories of length 1..2 (quick: full alphabet at length 1, core alphabet at length 2; thorough: full alphabet at length 2, core at 3) from 7 initial shapes (empty, 0x0, 1x1, 2x3, 3x2, 0x2, 2x0); operand lengths 0..4 (shorter/equal/longer/zero); contents, values and indices symbolic (out-of-range accessor indices: any size_t)',
-    outside='strvector (string storage through strdup/snprintf is not encoded), allocation failure (--no-malloc-may-fail: the library aborts in xmalloc), memory leaks, histories longer than the bound (the representation invariant asserted after every step is what extends them), NaN/Inf/MISSING-coded cell values, delete with an out-of-range index',
+    outside='strvector beyond three fixed histories with 2-character strings, allocation failure (--no-malloc-may-fail: the library aborts in xmalloc), memory leaks, histories longer than the bound (the representation invariant asserted after every step is what extends them), NaN/Inf/MISSING-coded cell values, delete with an out-of-range index',
     stubs=['printf/fprintf/fflush: CBMC built-in no-op models', 'memmove: typed word-wise model (vectors)'],
     assumptions=['operations are valid for the current shape (the driver simulates the shape and only emits valid sequences)'],
 )
@@ -171,5 +171,9 @@ def tensor_obs(tier):
     return obs
 
 
+def strvector_obs(tier):
+    return [Ob(id=f'strvector/history{k}', harness='C14/strvector_ops.c', tus=T, defs={'HP_SEQ': k}, engine='bits', unwind=12, timeout=300, clause='strvector', object_bits=10, flags=('--string-abstraction',) if False else ()) for k in (0, 1, 2)]
+
+
 def obligations(tier):
-    return matrix_obs(tier) + vector_obs(tier) + tensor_obs(tier)
+    return matrix_obs(tier) + vector_obs(tier) + tensor_obs(tier) + strvector_obs(tier)
